@@ -224,6 +224,9 @@ def check_case(ck, case, use_model=True, lines_out=None):
             ck.violation("other", f"pairs has shape {pairs.shape}", slim)
             return None
         got = [(int(a), int(b)) for a, b in zip(pairs[0], pairs[1])]
+        if dist is not None and (not isinstance(dist, np.ndarray) or dist.ndim != 1 or dist.dtype.kind != "f"):
+            ck.violation(classify(case), f"distances is not a 1-d float array: {dist!r}"[:200], slim)
+            return None
         gd = None if dist is None else [float(x) for x in dist]
     # ---- oracle
     if tkm is not None:
